@@ -169,6 +169,10 @@ func (p *Processor) OpenCDR(
 			RegistrationMessagetype: cdrType.RegistrationMessageType{Value: cdrType.RegistrationMessageTypePresentInitial},
 		}
 	}
+	if pduSessionInfo := chargingData.PDUSessionChargingInformation; pduSessionInfo != nil &&
+		pduSessionInfo.PduSessionInformation == nil {
+		return nil, fmt.Errorf("pduSessionInformation is missing in pDUSessionChargingInformation")
+	}
 	if pduSessionInfo := chargingData.PDUSessionChargingInformation; pduSessionInfo != nil {
 		logger.ChargingdataPostLog.Debugln("PDU Session Charging Event")
 		chfCdr.PDUSessionChargingInformation = &cdrType.PDUSessionChargingInformation{
@@ -178,17 +182,20 @@ func (p *Processor) OpenCDR(
 			PDUSessionId: cdrType.PDUSessionId{
 				Value: int64(pduSessionInfo.PduSessionInformation.PduSessionID),
 			},
-			NetworkSliceInstanceID: &cdrType.SingleNSSAI{
-				SST: cdrType.SliceServiceType{
-					Value: int64(pduSessionInfo.PduSessionInformation.NetworkSlicingInfo.SNSSAI.Sst),
-				},
-				SD: &cdrType.SliceDifferentiator{
-					Value: []byte(pduSessionInfo.PduSessionInformation.NetworkSlicingInfo.SNSSAI.Sd),
-				},
-			},
 			DataNetworkNameIdentifier: &cdrType.DataNetworkNameIdentifier{
 				Value: asn.IA5String(pduSessionInfo.PduSessionInformation.DnnId),
 			},
+		}
+		// the network slicing information is optional
+		if slicingInfo := pduSessionInfo.PduSessionInformation.NetworkSlicingInfo; slicingInfo != nil && slicingInfo.SNSSAI != nil {
+			chfCdr.PDUSessionChargingInformation.NetworkSliceInstanceID = &cdrType.SingleNSSAI{
+				SST: cdrType.SliceServiceType{
+					Value: int64(slicingInfo.SNSSAI.Sst),
+				},
+				SD: &cdrType.SliceDifferentiator{
+					Value: []byte(slicingInfo.SNSSAI.Sd),
+				},
+			}
 		}
 	}
 
